@@ -2,13 +2,18 @@
 # final pass: every seeded change applied to /repo itself (git -C /repo apply), the registered quick check run
 # in /verif, the change undone (git -C /repo checkout -- .).  Nothing else may use /repo meanwhile.
 cd "$(dirname "$0")/.."
-out=seeded/INREPO_RESULTS.txt
+# usage: seeded_inrepo_pass.sh [glob-of-change-numbers, default 0-9] [output file]
+pat=${1:-0-9}
+out=${2:-seeded/INREPO_RESULTS.txt}
 : > $out
-for d in seeded/C*/[0-9]; do
+for d in seeded/C*/[$pat]; do
   id=$(basename $(dirname $d))
   props=$id
   [ "$d" = "seeded/C01/3" ] && props="C01,C16"
   [ "$d" = "seeded/C12/3" ] && props="C12,C14"
+  [ "$d" = "seeded/C07/6" ] && props="C07,C02"
+  [ "$d" = "seeded/C09/6" ] && props="C09,C13"
+  [ "$d" = "seeded/C18/5" ] && props="C18,C08"
   python3 tools/run_seeded.py $d --props $props --in-repo 2>&1 | grep "^seeded" >> $out
   git -C /repo status --short | grep -v "^??" >> $out
 done
